@@ -790,6 +790,11 @@ B_SCRIPTED = [
     {'name': 'zero-credit-then-flow-control', 'tasks': [[7], [8]], 'credits': [0, 1], 'expect_block': False,
      'script': [['start'], ['start'], ['ctrl'], ['host'], ['idle'], ['idle'], ['idle'],
                 ['event', _ev_cc(0, 1)], ['host'], ['idle'], ['ctrl'], ['host'], ['idle'], ['idle']]},
+    # zero credits, then a flow-control event that still grants nothing (must not release), then one that does
+    {'name': 'zero-credit-empty-flow-control', 'tasks': [[7], [8]], 'credits': [0, 1], 'expect_block': False,
+     'script': [['start'], ['start'], ['ctrl'], ['host'], ['idle'], ['idle'], ['event', _ev_cc(0, 0)], ['host'],
+                ['idle'], ['idle'], ['idle'], ['event', _ev_cc(0, 1)], ['host'], ['idle'], ['ctrl'], ['host'], ['idle'],
+                ['idle']]},
     # zero credits and no flow control event: the second caller stays blocked (model agrees)
     {'name': 'zero-credit-blocks', 'tasks': [[7], [8]], 'credits': [0, 1], 'expect_block': True,
      'script': [['start'], ['start'], ['ctrl'], ['host'], ['idle'], ['idle'], ['idle'], ['idle']]},
@@ -1347,7 +1352,7 @@ async def _run_proc_ops(ops):
             p = peers[o[1]]
             p.on_packet(bytes(adv_params()))
             p.on_packet(bytes(hci.HCI_LE_Set_Advertising_Enable_Command(advertising_enable=1)))
-            await settle()
+            await settle(10)
             p.on_packet(bytes(hci.HCI_LE_Set_Advertising_Enable_Command(advertising_enable=0)))
             model_ops.append(f'Adv {o[1]}')
         elif kind == 'PeerAccept':
@@ -1379,7 +1384,7 @@ async def _run_proc_ops(ops):
                 ledger.append(['exception', type(e).__name__, False, False])
         if not last:
             continue
-        await settle()
+        await settle(10)
         # completion ledger, from the CUT's host events only
         new = [_abs_event(p) for p in sink.packets[seen:]]
         seen = len(sink.packets)
@@ -1461,7 +1466,7 @@ def campaign_proc_model(ctx):
         [['burst', [['ClassicCreate', 3], ['ClassicCreate', 3], ['RemoteName', 3], ['LeCreate', 1, 2], ['LeCancel']]],
          ['PeerAccept', 3], ['burst', [['Disconnect', 1], ['ClassicCreate', 3]]]],
     ]
-    for k in range(ctx.n(250, 20000)):
+    for k in range(ctx.n(250, 10000)):
         cases.append(gen_proc_ops(rng, rng.choice([3, 6, 10, 16]), bursts=(k % 2 == 1)))
     runs, exprs = [], []
     for ops in cases:
@@ -1490,6 +1495,229 @@ def campaign_proc_model(ctx):
                 sig = f'C:{e[0]}/{"peer-gone" if gone else "sequence"}:no-completion'
                 ctx.violation(sig, f'procedure ops {ops}: {e[0]} {e[1]} accepted but never concluded', replay)
                 break
+
+
+# ============================================================================= (C3) CIS set-up model
+# CUT (central, LE ACL handle 1 to peer p2) + real peer: random sequences (with bursts) of Set CIG /
+# Remove CIG / Create CIS / Disconnect and peer actions, compared with Model/CisProc.v.
+def gen_cis_ops(rng, n, bursts):
+    def one():
+        r = rng.below(100)
+        if r < 18:
+            return ['SetCig', rng.choice([1, 1, 2]), rng.choice([[1], [1, 2], [2, 3], [1, 2, 3]])]
+        if r < 24:
+            return ['RemoveCig', rng.choice([1, 2])]
+        if r < 50:
+            return ['CreateCis', rng.choice([2, 2, 3, 4, 5]), rng.choice([1, 1, 1, 7])]
+        if r < 66:
+            return ['DisconnectH', rng.choice([2, 3, 4, 1, 9])]
+        if r < 90:
+            return ['PeerAcceptCis']
+        return ['PeerAclDisconnect']
+    ops = []
+    for _ in range(n):
+        if bursts and rng.chance(1, 4):
+            inner = [x for x in (one() for _ in range(rng.range(2, 4))) if x[0] != 'PeerAcceptCis']
+            if len(inner) >= 2:
+                ops.append(['burst', inner])
+                continue
+        ops.append(one())
+    return ops
+
+
+def _abs_cis_event(p):
+    r = reply_of(p)
+    if r:
+        if r[0] == 'CC' and r[1] == 0x2062:
+            n = p[8]
+            return [8, p[7]] + [p[9 + 2 * i] | (p[10 + 2 * i] << 8) for i in range(n)]
+        if r[0] == 'CC' and r[1] == 0x2065:
+            return [9, r[3]]
+        if r[0] == 'CS':
+            return [0, r[1], r[3]]
+        return None
+    code = event_code(p)
+    if code == (0x3E, 0x19):
+        return [10, p[5] | (p[6] << 8)]
+    if code == (0x05, None):
+        return [3, p[4] | (p[5] << 8)]
+    return None
+
+
+async def _run_cis_ops(ops):
+    from bumble import hci
+    sit = await build_situation('link1conn')
+    cut, sink, peer = sit['cut'], sit['sink'], sit['peers'][0]
+    psink = peer.test_sink
+    psink.packets.clear()
+    groups = []
+    open_cis = {}               # cis handle -> cig, creations accepted and not concluded (harness ledger)
+    link_cig = {}               # cis handle -> cig as configured
+    ledger = []                 # [cis handle, concluded?]
+    issued = []
+    seen = 0
+    pseen = 0
+    peer_pending = []           # peer's unanswered CIS requests: [peer cis handle, cig, cis]
+    burst_cigs = set()
+    flat = []
+    for step in ops:
+        if step[0] == 'burst':
+            inner = [x for x in step[1] if x[0] not in ('PeerAcceptCis', 'burst')]
+            for k, x in enumerate(inner):
+                flat.append((x, k == 0, k == len(inner) - 1))
+        else:
+            flat.append((step, True, True))
+
+    def peer_events():
+        nonlocal pseen
+        for p in psink.packets[pseen:]:
+            code = event_code(p)
+            if code == (0x3E, 0x1A):
+                peer_pending.append([p[6] | (p[7] << 8), p[8], p[9], True])
+            elif code == (0x05, None):
+                h = p[4] | (p[5] << 8)
+                for e in peer_pending:
+                    if e[0] == h:
+                        peer_pending.remove(e)
+                        break
+        pseen = len(psink.packets)
+
+    for o, first, last in flat:
+        if first:
+            groups.append([])
+        g = groups[-1]
+        kind = o[0]
+        cmd = None
+        if kind in ('SetCig', 'RemoveCig'):
+            if any(c == o[1] for c in open_cis.values()) or burst_cigs:
+                pass            # hypothesis of the model: not while one of its CIS is being created
+            elif kind == 'SetCig':
+                n = len(o[2])
+                cmd = hci.HCI_LE_Set_CIG_Parameters_Command(
+                    cig_id=o[1], sdu_interval_c_to_p=10000, sdu_interval_p_to_c=10000, worst_case_sca=0, packing=0,
+                    framing=0, max_transport_latency_c_to_p=10, max_transport_latency_p_to_c=10, cis_id=list(o[2]),
+                    max_sdu_c_to_p=[40] * n, max_sdu_p_to_c=[40] * n, phy_c_to_p=[1] * n, phy_p_to_c=[1] * n,
+                    rtn_c_to_p=[1] * n, rtn_p_to_c=[1] * n)
+                g.append(f'CCmd (SetCig {o[1]} {coq_list(o[2], coq_z)})')
+            else:
+                cmd = hci.HCI_LE_Remove_CIG_Command(cig_id=o[1])
+                g.append(f'CCmd (RemoveCig {o[1]})')
+        elif kind == 'CreateCis':
+            burst_cigs.add(0)       # may be accepted: known only after the group has settled
+            cmd = hci.HCI_LE_Create_CIS_Command(cis_connection_handle=[o[1]], acl_connection_handle=[o[2]])
+            g.append(f'CCmd (CreateCis {o[1]} {o[2]})')
+        elif kind == 'DisconnectH':
+            cmd = hci.HCI_Disconnect_Command(connection_handle=o[1], reason=0x13)
+            g.append(f'CCmd (DisconnectH {o[1]})')
+        elif kind == 'PeerAcceptCis':
+            peer_events()
+            todo = [e for e in peer_pending if e[3]]
+            if todo:
+                todo[0][3] = False
+                peer.on_packet(bytes(hci.HCI_LE_Accept_CIS_Request_Command(connection_handle=todo[0][0])))
+                g.append('PeerAcceptCis')
+        elif kind == 'PeerAclDisconnect':
+            if peer.le_connections:
+                hnd = next(iter(peer.le_connections.values())).handle
+                peer.on_packet(bytes(hci.HCI_Disconnect_Command(connection_handle=hnd, reason=0x13)))
+                g.append('PeerAclDisconnect')
+        if cmd is not None:
+            issued.append((kind, o))
+            try:
+                cut.on_packet(bytes(cmd))
+            except Exception as e:      # noqa
+                ledger.append(['exception', type(e).__name__])
+        if not last:
+            continue
+        await settle(10)
+        burst_cigs.clear()
+        peer_events()
+        for p in sink.packets[seen:]:
+            ev = _abs_cis_event(p)
+            if ev is None:
+                continue
+            if ev[0] in (0, 8, 9) and issued:
+                kind_i, oi = issued.pop(0)
+                if ev[0] == 8:
+                    for h in [k for k, c in link_cig.items() if c == ev[1]]:
+                        del link_cig[h]
+                    for h in ev[2:]:
+                        link_cig[h] = ev[1]
+                elif ev[0] == 9 and ev[1] == 0:
+                    for h in [k for k, c in link_cig.items() if c == oi[1]]:
+                        del link_cig[h]
+                elif ev[0] == 0 and ev[2] == 0 and kind_i == 'CreateCis':
+                    ledger.append([oi[1], False])
+                    open_cis[oi[1]] = link_cig.get(oi[1])
+            elif ev[0] == 10:
+                for e in ledger:
+                    if e[0] == ev[1] and e[1] is False:
+                        e[1] = True
+                        break
+                if not any(e[0] == ev[1] and e[1] is False for e in ledger):
+                    open_cis.pop(ev[1], None)
+            elif ev[0] == 3:
+                for e in ledger:
+                    if e[1] is False and (e[0] == ev[1] or ev[1] == 1):
+                        e[1] = True
+                if ev[1] == 1:
+                    open_cis.clear()
+                else:
+                    open_cis.pop(ev[1], None)
+        seen = len(sink.packets)
+    peer_events()
+    events = [_abs_cis_event(p) for p in sink.packets]
+    unknown = [p.hex() for p in sink.packets if _abs_cis_event(p) is None]
+    # still open at the end and not waiting for the peer's host
+    waiting_cigcis = {(c, i) for _, c, i, unanswered in peer_pending if unanswered}
+    stuck = []
+    for e in ledger:
+        if e[0] == 'exception':
+            stuck.append(e)
+        elif e[1] is False:
+            lk = cut.central_cis_links.get(e[0])
+            if lk is None or (lk.cig_id, lk.cis_id) not in waiting_cigcis:
+                stuck.append(e)
+    return [g for g in groups if g], events, stuck, unknown
+
+
+def campaign_cis_model(ctx):
+    rng = ctx.rng
+    cases = [
+        [['SetCig', 1, [1, 2]], ['CreateCis', 2, 1], ['PeerAcceptCis'], ['CreateCis', 3, 7], ['DisconnectH', 2],
+         ['DisconnectH', 2], ['burst', [['CreateCis', 3, 1], ['DisconnectH', 1]]], ['PeerAcceptCis']],
+        [['SetCig', 1, [1]], ['burst', [['CreateCis', 2, 1], ['PeerAclDisconnect']]], ['PeerAcceptCis']],
+        [['SetCig', 1, [1]], ['CreateCis', 2, 1], ['PeerAclDisconnect'], ['PeerAcceptCis'], ['SetCig', 1, [1, 2]]],
+        [['SetCig', 2, [3]], ['burst', [['CreateCis', 2, 1], ['CreateCis', 2, 1], ['DisconnectH', 2]]],
+         ['PeerAcceptCis'], ['PeerAcceptCis'], ['RemoveCig', 2], ['RemoveCig', 2]],
+    ]
+    for k in range(ctx.n(100, 3000)):
+        cases.append(gen_cis_ops(rng, rng.choice([3, 6, 10]), bursts=(k % 2 == 1)))
+    runs, exprs = [], []
+    for ops in cases:
+        (groups, events, stuck, unknown), errors = run_async(_run_cis_ops, ops)
+        runs.append((ops, groups, events, stuck, unknown, errors))
+        exprs.append('cis_groups_obs [' + '; '.join('[' + '; '.join(g) + ']' for g in groups) + ']')
+    model = ctx.coq_eval(['Model.CisProc'], exprs)
+    for (ops, groups, events, stuck, unknown, errors), m in zip(runs, model):
+        nops = sum(len(g) for g in groups)
+        ctx.case(('C3', ops), nops >= 3, {'kind': 'cisops', 'ops': ops} if ctx.evaluations % 200 == 13 else None)
+        ctx.count('C3.sequences')
+        ctx.count('C3.ops', nops)
+        ctx.count('C3.bursts', sum(1 for g in groups if len(g) > 1))
+        ctx.count('C3.established', sum(1 for e in events if e and e[0] == 10))
+        ctx.count('C3.callback_errors', len(errors))
+        replay = {'kind': 'cisops', 'ops': ops}
+        mout, mopen, mended = m
+        if unknown or [list(x) for x in mout] != events:
+            ctx.disagree('CisProc events', replay, [list(x) for x in mout], events + [['unknown', u] for u in unknown])
+        for e in stuck:
+            if e[0] == 'exception':
+                ctx.violation(f'C3:exception:{e[1]}', f'CIS ops {ops}: {e[1]} escaped Controller.on_packet', replay)
+            else:
+                ctx.violation('C:create-cis/sequence:no-completion',
+                              f'CIS ops {ops}: creation of CIS {e[0]} accepted but never concluded', replay)
+            break
 
 
 # ============================================================================= corpus
@@ -1578,8 +1806,20 @@ def run(ctx):
             if r.get('kind') == 'ctrl':
                 check_ctrl_case(ctx, r['situation'], [bytes.fromhex(c) for c in r['cmds']], r['burst'], model_obs)
                 ctx.count('A.corpus')
+    if not ctx.quick():
+        # deeper complete evaluations than the ones Props/C03.v carries (per-run obligations)
+        names = ['all_ok 6 (p_init [2; 3])', 'all_ok 6 connected_state', 'cis_all_ok 7 cis_configured']
+        try:
+            vals = ctx.coq_eval(['Model.CtrlProc', 'Model.CisProc'], names, shard=1, timeout=1500)
+        except Exception as e:      # noqa
+            vals = [repr(e)[:200]] * len(names)
+        for n, v in zip(names, vals):
+            ctx.obligations.append({'name': 'vm_compute: ' + n + ' = true', 'ok': v is True})
+            if v is not True:
+                ctx.disagree('bounded complete evaluation', n, True, v)
     campaign_proc(ctx)
     campaign_proc_model(ctx)
+    campaign_cis_model(ctx)
     campaign_ctrl(ctx, model_obs)
     campaign_host(ctx)
     campaign_host_all(ctx)
@@ -1667,6 +1907,13 @@ def replay(ctx, obj):
             if got != op:
                 print(f' command {c}: opcode {op:#06x} -> response {got}')
         print('oracle:', 'holds' if max_out <= 1 and all(op == got for op, got in results) else 'fails')
+    elif r['kind'] == 'cisops':
+        (groups, events, stuck, unknown), errors = run_async(_run_cis_ops, r['ops'])
+        print('model schedule (groups, link drained after each):', groups)
+        print('events at the host:', events, unknown)
+        print('creations accepted and never concluded:', stuck)
+        print('model:', ctx.coq_eval(['Model.CisProc'],
+                                     ['cis_groups_obs [' + '; '.join('[' + '; '.join(g) + ']' for g in groups) + ']'])[0])
     elif r['kind'] == 'procops':
         (groups, events, ledger, unknown), errors = run_async(_run_proc_ops, r['ops'])
         print('model schedule (groups, link drained after each):', groups)
